@@ -11,3 +11,5 @@ import PanderaModel.Props.C01
 #print axioms Pandera.C01.uniqueValuesEq_empty_column
 #print axioms Pandera.C01.uniqueValuesEq_ignores_nulls
 #print axioms Pandera.C01.uniqueValuesEq_missing_value
+#print axioms Pandera.C01.dupGroups_nil_iff
+#print axioms Pandera.C01.mem_dupGroups_iff
